@@ -430,6 +430,23 @@ impl Model {
                 ex.out.vals.push(Val::None);
                 continue;
             }
+            // nth(k): k items are consumed (destroyed) by the iterator itself first
+            let mut exhausted = false;
+            for _ in 0..st.skip {
+                if lo == hi {
+                    exhausted = true;
+                    break;
+                }
+                if st.back {
+                    hi -= 1;
+                } else {
+                    lo += 1;
+                }
+            }
+            if exhausted || lo == hi {
+                ex.out.vals.push(Val::None);
+                continue;
+            }
             let id = if st.back {
                 hi -= 1;
                 range[hi]
@@ -444,7 +461,10 @@ impl Model {
             ex.out.vals.extend(sub.out.vals);
             ex.leaked.extend(sub.leaked);
             if sub.out.panicked {
+                // the sink rejected the item (e.g. destination full): the panic unwinds out of the whole
+                // operation, the rest of the script never runs; the iterator's drop still finishes its job
                 ex.out.panicked = true;
+                break;
             }
         }
         ex.out.lens.push(hi - lo);
